@@ -41,6 +41,7 @@ type Run struct {
 	Findings  []Finding
 	Obligations int // oracle obligations discharged with work in flight
 	Digest    uint64
+	Discard   string // non-empty: the run cannot be judged (counted, never a verdict)
 	HS        *HSRun
 }
 
@@ -88,9 +89,15 @@ func execIn(t *testing.T, scn *Scenario, tape []int32, run *Run) {
 	} else {
 		rn := &runner{sim: s, scn: scn}
 		rn.net = s.NewNet(scn.Net)
+		for k := 1; k < len(rn.pools); k++ {
+			rn.pools[k] = &simPool{} // created by the root goroutine, before anyone can race for them
+		}
 		for i := range scn.Prepared {
 			p := scn.Prepared[i]
 			src := p.Pay.Bytes()
+			if p.MT == websocket.CloseMessage && p.Code != 0 {
+				src = closeBody(p.Code, p.Pay.Len)
+			}
 			keep := append([]byte{}, src...)
 			pm, err := websocket.NewPreparedMessage(p.MT, src)
 			if err != nil {
